@@ -184,7 +184,19 @@ class Cache:
 
             # For union, visible columns must match (validated in verb function)
             # Hidden columns: are removed (we don't keep names for them and it is unlike they match in uuid)
-            res.cols = {uid: col for uid, col in self.cols.items() if uid in self.uuid_to_name}
+            # The type of a result column is the common type of the two operand
+            # columns. It is never const: the operands may hold different constants.
+            res.cols = {
+                uid: Col(
+                    col.name,
+                    col._ast,
+                    uid,
+                    types.lca_type([col.dtype(), right_cache.cols[right_cache.name_to_uuid[self.uuid_to_name[uid]]].dtype()]),
+                    col.ftype(),
+                )
+                for uid, col in self.cols.items()
+                if uid in self.uuid_to_name
+            }
             # Visible columns should match, so we keep left table's name_to_uuid
             # (right table's visible columns are the same by validation)
             res.name_to_uuid = self.name_to_uuid.copy()
